@@ -149,30 +149,7 @@ def sig_json_started_without_result(witness):
     return bool(announced - reported)
 
 
-def sig_unsaveable_values(witness):
-    """SIGNATURE of the open finding unsaveable-values: a task whose action returns a value the DB codec cannot encode
-    (extras bad_values) was reported with add_success; the run then ended with exit 3 through a TypeError traceback
-    raised by dep_manager.close() in Runner.finish() -- complete_run was never called (no `complete` in the trace);
-    the only failed monitors are C19_exit and (json reporter: no document, no diagnostic) C19_json"""
-    case = witness.get('case') or {}
-    if not _only(witness, ['C19_exit', 'C19_json', 'C19_truth']) or witness.get('aborted'):
-        return False
-    tr = witness.get('trace') or []
-    if ['complete'] in tr or witness.get('exit') != 3:
-        return False
-    err = witness.get('err') or ''
-    if witness.get('reporter') == 'json':
-        if err not in ('', 'crash:TypeError'):
-            return False
-    elif err != 'crash:TypeError' and not (err == '' and case.get('runner') == 'thread'):
-        # (thread runner: the traceback may land in the stderr Writer of an action still in flight, F-C17a)
-        return False
-    bad = [n for n, t in enumerate(case.get('tasks') or []) if (t.get('c19') or {}).get('bad_values')]
-    return any(['success', n] in tr for n in bad)
-
-
-SIGNATURES = {'json-started-without-result': sig_json_started_without_result,
-              'unsaveable-values': sig_unsaveable_values}
+SIGNATURES = {'json-started-without-result': sig_json_started_without_result}
 
 _LAST = {}          # output of the real reporter of the run in progress (same process as DoitMain.run)
 
@@ -333,7 +310,8 @@ def _wrap_task_dict(d, t, n, rec):
                                   title_with_actions / a function returning a number)
       lazy_bad: 'int' | 'tuple4'  `actions` holds an element doit rejects only when the action objects are created, i.e.
                                   inside the runner at execution time (InvalidTask -> runtime_error, run aborted, exit 2)
-      bad_values: 'set' | 'bytes' (successful tasks) the action returns a dict with a value the DB codec cannot encode"""
+      bad_values: 'set' | 'bytes' (tasks whose outcome is 'saveerr') the actions succeed and return a dict with a value the DB
+                                  codec cannot encode: save_success fails, the task is a DependencyError failure (model: saveErr)"""
     x = _extras(t)
     if not x or 'actions' not in d:
         return d
@@ -371,7 +349,9 @@ def _wrap_task_dict(d, t, n, rec):
         else:
             acts = [runlib._make_action(rec, n, dict(t, outcome='ok', calc_res=None))]
         d['actions'] = acts + ['kill -%s $$' % x['sigkill']]
-    if x.get('bad_values') and t['outcome'] == 'ok' and not x.get('base_exc'):
+    if x.get('bad_values') and t['outcome'] == 'saveerr' and not x.get('base_exc'):
+        # one realisation of the run model's outcome `saveErr`: the actions succeed, save_success cannot encode the values
+        d['actions'] = runlib._make_actions(rec, n, dict(t, outcome='ok'))
         inner = d['actions'][-1]
         bad = {1, 2} if x['bad_values'] == 'set' else b'x'
 
@@ -509,7 +489,7 @@ def run_impl19(case, keep_raw=True):
 def has_plant(case):
     """the case has something the run model M1 has no counterpart for (base acceptance is skipped and counted)"""
     return any(_extras(t).get('utd_raises') or _extras(t).get('base_exc') or _extras(t).get('lazy_bad')
-               or _extras(t).get('bad_values') for t in case['tasks'])
+               for t in case['tasks'])
 
 
 def effective_exit(obs):
@@ -618,11 +598,6 @@ def c19_request(case, obs):
     req['taskVerb'] = [_extras(t).get('verbosity') for t in case['tasks']]
     req['runtimeErr'] = bool(obs.get('runtime_error'))
     req['lazyBad'] = [n for n, t in enumerate(case['tasks']) if _extras(t).get('lazy_bad')]
-    # a successful action whose values cannot be saved: in the run model this is the outcome `saveErr` (the task has to be
-    # reported as a failure of kind DependencyError after its actions ended), which is what C19_truth then demands
-    bad = [n for n, t in enumerate(case['tasks']) if _extras(t).get('bad_values') and t['outcome'] == 'ok']
-    if bad:
-        req['outcome'] = [('saveerr' if n in bad else o) for n, o in enumerate(req['outcome'])]
     return req
 
 
@@ -954,9 +929,11 @@ def decorate(c, rng):
             #  execute_task line instead of the runner; kept out of the random stream, the Lean rendering does not model it)
             t['c19']['title'] = 'custom'
     elif r2 < 0.07:
-        cand = [t for t in real if t['outcome'] == 'ok' and not t.get('calc_res')]
+        cand = [t for t in real if t['outcome'] == 'ok' and not _extras(t).get('base_exc')]
         if cand:
-            rng.choice(cand).setdefault('c19', {})['bad_values'] = rng.choice(['set', 'bytes'])
+            t = rng.choice(cand)
+            t['outcome'] = 'saveerr'
+            t.setdefault('c19', {})['bad_values'] = rng.choice(['set', 'bytes'])
     if c.get('reporter') == 'json' and rng.random() < 0.3:
         c['out_encoding'] = rng.choice(['ascii', 'latin-1'])
         for t in real:
@@ -1054,6 +1031,9 @@ def _task(name, oc, **kw):
         t['ignored'] = True
     elif oc == 'utdraise':
         t['c19'] = {'utd_raises': True}
+    elif oc == 'badvals':
+        t['outcome'] = 'saveerr'
+        t['c19'] = {'bad_values': 'set'}
     elif oc == 'staterr':
         t['status'] = 'error'
         t['file_dep'] = ['missing_%s' % name]      # runlib's convention: get_status answers 'error' (missing file_dep)
